@@ -43,6 +43,10 @@ func (p *ResetProcessor) UnmarshalYAML(value *yaml.Node) error {
 	if err != nil {
 		return err
 	}
+	if resolved == nil {
+		// the whole document is tagged !reset: nothing to decode
+		return nil
+	}
 	return resolved.Decode(p.target)
 }
 
